@@ -308,7 +308,10 @@ impl Ctx {
                                     ok_arm = Some((b, &a.body));
                                 }
                             } else if ctor == "Err" {
-                                err_ok = matches!(strip(&a.body), syn::Expr::Call(c) if canon(&c.func) == "Err") || matches!(strip(&a.body), syn::Expr::Return(_));
+                                // the error is passed on (converted or not): `Err(..)` or `return Err(..)` — a `return` of anything
+                                // else would be a second way OUT of the function with a value, not the `?` this is read as
+                                let is_err = |x: &syn::Expr| matches!(strip(x), syn::Expr::Call(c) if canon(&c.func) == "Err");
+                                err_ok = is_err(&a.body) || matches!(strip(&a.body), syn::Expr::Return(r) if r.expr.as_deref().map(is_err).unwrap_or(false));
                             }
                         }
                     }
@@ -425,6 +428,11 @@ impl Ctx {
                         }
                     }
                     let t = cx.tm(init);
+                    // a `let` whose value is an EFFECT on the hasher / serializer / formatter (`let _ = write!(..)`) is a statement
+                    // that happens whether or not the name is used: only one effect per body is in the grammar
+                    if has_effect(&t) {
+                        return Tm::Opaque(canon(s));
+                    }
                     cx.lets.insert(name, t);
                 }
                 syn::Stmt::Item(_) => {} // local items (the visitor struct and its impl) are read separately
@@ -462,6 +470,15 @@ impl Ctx {
             }
         }
         result
+    }
+}
+
+fn has_effect(t: &Tm) -> bool {
+    match t {
+        Tm::HashInto(_) | Tm::SerStr(_) | Tm::Display(_) | Tm::Lit(_) | Tm::DebugTuple(..) | Tm::Opaque(_) => true,
+        Tm::Proj(a, _) | Tm::Mk1(a) | Tm::UrlParse(a) | Tm::UrlText(a) | Tm::Try(a) | Tm::Ok(a) | Tm::Some(a) | Tm::MapErr(a) | Tm::Not(a) | Tm::Digest(a) | Tm::NewCall(a) | Tm::OwnCall(a, _) => has_effect(a),
+        Tm::Mk2(a, b) | Tm::Eq(a, b) | Tm::Cmp(a, b) | Tm::PCmp(a, b) => has_effect(a) || has_effect(b),
+        Tm::SelfVal | Tm::OtherVal | Tm::Param(_) | Tm::Unit => false,
     }
 }
 
@@ -683,6 +700,27 @@ pub fn extract(srcs: &Sources) -> R<String> {
             all.push(bodies_of(file, &name, &mf)?);
         }
     }
+    // hand-written `impl AsRef<str> for <a new-type>` outside the macros (every translator reads `.as_ref()` of such a value as
+    // a view of its text: that is an obligation on these bodies)
+    let mut as_ref_impls: Vec<(String, Tm)> = Vec::new();
+    for it in &f.items {
+        if let syn::Item::Impl(im) = it {
+            if let Some((_, p, _)) = &im.trait_ {
+                let seg = p.segments.last().unwrap();
+                if seg.ident == "AsRef" && canon(&seg.arguments) == "<str>" {
+                    for ii in &im.items {
+                        if let syn::ImplItem::Fn(m) = ii {
+                            if m.sig.ident == "as_ref" {
+                                let (cx, _) = ctx_for(&[Kind::Text], &m.sig);
+                                as_ref_impls.push((canon(&im.self_ty), cx.block(&m.block.stmts)));
+                            }
+                        }
+                    }
+                }
+            }
+        }
+    }
+    as_ref_impls.sort_by(|a, b| a.0.cmp(&b.0));
     if all.len() != 3 {
         return fail(file, "macro_rules!", format!("the three new-type macros new_type / new_secret_type / new_url_type (found {})", all.len()));
     }
@@ -715,6 +753,10 @@ inductive Tm\n  | selfVal | otherVal | param (i : Nat) | proj (t : Tm) (i : Nat)
             lean::list_multiline(&ms, "      ")
         ));
     }
+    o.push_str(&format!(
+        "/-- hand-written `impl AsRef<str> for T` of src/types.rs: (T, body of `as_ref`) -/\ndef asRefImpls : List (String × Tm) := {}\n\n",
+        lean::list(&as_ref_impls.iter().map(|(n, b)| format!("({}, {})", lean::s(n), b.lean())).collect::<Vec<_>>())
+    ));
     o.push_str("end Gen.NewTypeBodies\n");
     Ok(o)
 }
